@@ -127,6 +127,18 @@ PROPS["C33"] = A("cases draw UserEventSizeLimit, QuerySizeLimit, QueryResponseSi
 PROPS["C35"] = A("cases build a member view by history (up to 8 ghost members with ProtocolMax 2-5 in status alive/leaving/left/failed, changed between replies) and let the real node reply to queries with relay factor 0-8 and 255, by acknowledgement and by Respond; the seeded global PRNG drives the node's random relay choice; distinct = distinct step-list hash; non-trivial = at least one reply",
     "Seeded exploration; packets captured on the simulated network: exactly one direct reply to the origin; relayed copies at most k, through pairwise distinct alive members with ProtocolMax>=5, never the node itself, none when it knows fewer than k+1 members; each envelope names the origin and carries the direct reply byte-for-byte. Exact replay.",
     quick=(4000, 45), thorough=(200000, 900))
+PROPS["C36"] = A("cases trigger name-conflict resolution on a real node in a 4-member cluster, capture its conflict query on the simulated network and inject a seeded reply multiset (own address, other address, nil member, malformed, wrong type byte, empty, duplicates from one sender, more senders than fit, late replies after the fake-clock deadline); distinct = distinct step-list hash; non-trivial = resolution ran",
+    "Seeded exploration; reference vote count over the replies that reach the vote (distinct sender, before the deadline, decodable, right type): State()==shutdown iff fewer than floor(v/2)+1 name the node's own address:port. Exact replay.",
+    quick=(2500, 45), thorough=(120000, 900))
+PROPS["C23"] = A("mode 0: a real node in a 4-member cluster runs ListKeys/InstallKey/UseKey/RemoveKey while the simulator injects a seeded reply multiset (well-formed ok with key lists, failed, undecodable, wrong type, empty, duplicate senders, missing, late) and advances the fake clock to the timeout; mode 1: a node holding 1-121 keys with a response size limit in [64,4096] answers a list-keys query and the reply packet is captured on the simulated network; distinct = distinct step-list hash; non-trivial = the operation ran",
+    "Seeded exploration against a reference tally: NumNodes, NumResp, NumErr, per-key and per-primary counts, error iff a failure or fewer replies than members; reply size <= limit whenever a one-key reply fits, listed keys are a prefix of the keyring, a truncated reply states shown/total. Exact replay.",
+    quick=(2500, 45), thorough=(120000, 900))
+PROPS["C22"] = A("cases are seeded sequences of install-key/use-key/remove-key requests (valid 16/24/32-byte keys, wrong lengths, empty, absent keys, the primary) delivered as internal queries to a real node with a keyring and a keyring file (real temp file); after each request the file is reloaded through the agent's own loader (agent.Create); distinct = distinct step-list hash; non-trivial = at least one request",
+    "Seeded exploration; after every request the key set and primary key that the agent loader reads from the file equal the node's live keyring; a request answered as failed changed neither the keyring nor the file bytes. 'Restart' is modelled by the loader reading only durable state. Exact replay.",
+    quick=(2000, 45), thorough=(100000, 900))
+PROPS["C20"] = A("cases are seeded histories of probe acknowledgements delivered through the real ping delegate of a real node: sane coordinates, byzantine ones (NaN, +-Inf, 1e308, 5e-324, wrong dimension, nil vector, negative height/error), bad version byte, garbage, empty payloads, with round-trip times from negative through 0 to > 10 s and int64 extremes, for 4 peers (the client is stateful: latency filter, adjustment window); distinct = distinct step-list hash; non-trivial = at least one observation",
+    "Seeded exploration; after every step the local coordinate is finite with the configured dimension, height >= minimum, error within [0,max] while all accepted peers reported non-negative error; a step the model classifies invalid leaves the coordinate bit-identical and the peer's cached coordinate unchanged; accepted observations are cached. Thin use of the simulator (one node, no concurrency): the inputs are network/clock faults accumulated over a history. Exact replay.",
+    quick=(4000, 45), thorough=(200000, 900))
 PROPS["C14"] = D("cases are seeded histories against a real Serf node whose snapshot lives on simfs: user events and queries delivered by gossip and push/pull, real joins (with/without ignoreOld) against a real peer holding events, fake-time advances around the 500 ms flush interval, and 1-3 restarts (crash: only bytes already handed to the OS survive; or clean shutdown) followed by old and new messages; distinct = distinct step-list hash; non-trivial = messages injected after a restart",
     "Seeded exploration; E and Q are read by the real recovery from the image the restart starts from; any user event with time <= E or query with time <= Q on the application channel after the restart is a violation. Exact replay.",
     quick=(2500, 60), thorough=(100000, 1200),
